@@ -71,7 +71,7 @@ pub fn exit_on_error(args: &[String]) {
 }
 
 /// accepted grammars for C16: biased to multi-type fields / several memoized rules / many rules
-pub fn gen(seed: u64, count: u32, dir: &str) {
+pub fn gen(seed: u64, count: u32, dir: &str, repo: Option<&str>) {
     std::fs::create_dir_all(dir).unwrap();
     let profs = ["types", "memo", "mixed", "fields", "hooks"];
     let derive_sets: [&str; 4] = ["Debug,Clone", "Debug,Clone,PartialEq,Eq", "Clone", "-"];
@@ -114,11 +114,252 @@ pub fn gen(seed: u64, count: u32, dir: &str) {
         let caches = code.matches("CacheEntries <").count();
         let path = format!("{dir}/g{:04}.ebnf", n);
         std::fs::write(&path, &text).unwrap();
-        index.push(json!({"file": path, "derives": ds, "multi_type_field": multi_type, "cache_entries": caches, "rules": g.rules.len(),
+        let broken = write_broken(&g, &path);
+        index.push(json!({"file": path, "derives": ds, "multi_type_field": multi_type, "cache_entries": caches, "rules": g.rules.len(), "broken": broken,
             "code_hash": format!("{:016x}", verif_core::util::fnv64(code.as_bytes())), "header": generate_source_header(&text)}));
         n += 1;
     }
+    // the repository's own grammar files that the generator accepts (grammar.ebnf first), with broken variants of their
+    // lifted models
+    if let Some(repo) = repo {
+        let mut files = vec![];
+        collect_ebnf(std::path::Path::new(repo), &mut files);
+        files.sort();
+        files.sort_by_key(|f| !f.ends_with("/grammar.ebnf") || f.contains("/test/"));
+        for (i, f) in files.iter().enumerate() {
+            let text = match std::fs::read_to_string(f) {
+                Ok(t) => t,
+                Err(_) => continue,
+            };
+            let settings = CodegenSettings::default();
+            let parsed = match PGrammar::from_str(&text) {
+                Ok(p) => p,
+                Err(_) => continue,
+            };
+            let code = match parsed.generate_code(&settings) {
+                Ok(c) => c.to_string(),
+                Err(_) => continue,
+            };
+            let path = format!("{dir}/r{:04}.ebnf", i);
+            std::fs::write(&path, &text).unwrap();
+            let broken = match crate::c12::lift(&parsed) {
+                Ok(m) => write_broken(&m, &path),
+                Err(_) => vec![],
+            };
+            index.push(json!({"file": path, "derives": "Debug,Clone", "multi_type_field": code.contains("# [allow (non_camel_case_types)]"),
+                "cache_entries": code.matches("CacheEntries <").count(), "rules": 0, "broken": broken, "repo_file": f,
+                "code_hash": format!("{:016x}", verif_core::util::fnv64(code.as_bytes())), "header": generate_source_header(&text)}));
+        }
+    }
     std::fs::write(format!("{dir}/index.json"), serde_json::to_string(&index).unwrap()).unwrap();
+}
+
+fn collect_ebnf(dir: &std::path::Path, out: &mut Vec<String>) {
+    let rd = match std::fs::read_dir(dir) {
+        Ok(r) => r,
+        Err(_) => return,
+    };
+    for e in rd.flatten() {
+        let p = e.path();
+        let name = e.file_name().to_string_lossy().to_string();
+        if p.is_dir() {
+            if name != "target" && name != ".git" {
+                collect_ebnf(&p, out);
+            }
+        } else if name.ends_with(".ebnf") {
+            out.push(p.to_string_lossy().to_string());
+        }
+    }
+}
+
+/// Variants of `g` that the generator must reject *while generating a rule*: a rule body followed by a non-ASCII
+/// case-insensitive literal, or by a lookahead around a named field. Rules with a multi-alternative choice first (that is
+/// where generator-internal state is built up before the error), the first rule of the grammar first. Written next to
+/// `path`; never compiled here (the history process does that).
+fn write_broken(g: &verif_core::model::Grammar, path: &str) -> Vec<String> {
+    use verif_core::model::{Expr, RuleDef};
+    let mut cands: Vec<(bool, usize)> = vec![];
+    for (i, r) in g.rules.iter().enumerate() {
+        if let RuleDef::Normal(n) = r {
+            let mut multi = false;
+            n.body.walk(&mut |e| {
+                if let Expr::Choice(v) = e {
+                    if v.len() >= 2 {
+                        multi = true
+                    }
+                }
+            });
+            cands.push((!multi, i));
+        }
+    }
+    cands.sort();
+    let mut out = vec![];
+    for (k, (_, i)) in cands.into_iter().take(3).enumerate() {
+        let mut b = g.clone();
+        if let RuleDef::Normal(n) = &mut b.rules[i] {
+            let body = std::mem::replace(&mut n.body, Expr::Seq(vec![]));
+            let poison = if k % 2 == 0 {
+                Expr::Lit { s: "é".into(), insensitive: true }
+            } else {
+                Expr::Not(Box::new(Expr::named("zz_in_lookahead", &n.name.clone())))
+            };
+            n.body = Expr::Seq(vec![Expr::Group(Box::new(body)), poison]);
+        }
+        let p = format!("{}.broken{}", path, k);
+        std::fs::write(&p, printer::print_canonical(&b)).unwrap();
+        out.push(p);
+    }
+    out
+}
+
+/// C16 as a history property: within ONE process, compile a generated sequence of grammar texts - accepted ones and
+/// variants the generator rejects half-way through a rule - and require that every accepted text yields exactly the
+/// code a fresh process produced for it (`<file>.code`, written by the driver), whatever was compiled before.
+pub fn history(seed: u64, cases: u32, dir: &str, out: &str) {
+    use crate::common::{run_bytes, Acc, Failure};
+    let index: Vec<serde_json::Value> = serde_json::from_str(&std::fs::read_to_string(format!("{dir}/index.json")).unwrap()).unwrap();
+    struct G {
+        text: String,
+        derives: Vec<String>,
+        expected: String,
+        broken: Vec<String>,
+    }
+    let mut pool = vec![];
+    for g in &index {
+        let file = g["file"].as_str().unwrap();
+        let expected = match std::fs::read_to_string(format!("{file}.code")) {
+            Ok(c) => c,
+            Err(_) => continue,
+        };
+        let ds = g["derives"].as_str().unwrap();
+        pool.push(G {
+            text: std::fs::read_to_string(file).unwrap(),
+            derives: if ds == "-" { vec![] } else { ds.split(',').map(|s| s.to_string()).collect() },
+            expected,
+            broken: g["broken"].as_array().map(|a| a.iter().filter_map(|p| std::fs::read_to_string(p.as_str().unwrap()).ok()).collect()).unwrap_or_default(),
+        });
+    }
+    let mut acc = Acc::new("C16");
+    if pool.is_empty() {
+        acc.write(out);
+        return;
+    }
+    let compile = |text: &str, derives: &[String]| -> Result<String, String> {
+        let settings = CodegenSettings { derives: derives.to_vec(), ..Default::default() };
+        match verif_core::util::catch(|| PGrammar::from_str(text).map_err(|e| format!("{e:?}")).and_then(|g| g.generate_code(&settings).map(|t| t.to_string()).map_err(|e| format!("{e:#}")))) {
+            Ok(r) => r,
+            Err(_) => Err("panic".into()),
+        }
+    };
+    run_bytes(seed, "C16-history", cases, 64, &mut acc, |bytes, acc| {
+        let mut src = verif_core::util::Src::new(bytes);
+        let nops = 1 + src.weighted(&[2, 4, 4, 3, 2, 1]);
+        // ops: (grammar index, Some(broken variant) | None)
+        let mut ops: Vec<(usize, Option<usize>)> = vec![];
+        for _ in 0..nops {
+            let i = src.pick(pool.len());
+            match src.weighted(&[3, 5, 2, 2]) {
+                0 => ops.push((i, None)),
+                1 if !pool[i].broken.is_empty() => {
+                    // the rejected variant, then the grammar it was derived from
+                    let j = src.pick(pool[i].broken.len());
+                    let reps = 1 + src.weighted(&[6, 2, 1]);
+                    for _ in 0..reps {
+                        ops.push((i, Some(j)));
+                    }
+                    ops.push((i, None));
+                }
+                2 if !pool[i].broken.is_empty() => {
+                    let j = src.pick(pool[i].broken.len());
+                    ops.push((i, Some(j)));
+                    ops.push((src.pick(pool.len()), None));
+                }
+                _ => {
+                    ops.push((i, None));
+                    ops.push((i, None));
+                }
+            }
+        }
+        let mut rejected_before_accept = false;
+        let mut any_rejected = false;
+        let mut texts = vec![];
+        for (step, (i, b)) in ops.iter().enumerate() {
+            let g = &pool[*i];
+            let text = match b {
+                Some(j) => &g.broken[*j],
+                None => &g.text,
+            };
+            texts.push(json!({"text": text, "derives": g.derives, "broken_variant": b.is_some()}));
+            let r = compile(text, &g.derives);
+            match (b, r) {
+                (Some(_), Err(_)) => any_rejected = true,
+                (Some(_), Ok(_)) => {}
+                (None, Ok(code)) => {
+                    if any_rejected {
+                        rejected_before_accept = true;
+                    }
+                    if code != g.expected {
+                        let at = code.bytes().zip(g.expected.bytes()).position(|(a, b)| a != b).unwrap_or(code.len().min(g.expected.len()));
+                        let lo = at.saturating_sub(80);
+                        let cut = |s: &str| -> String { s.chars().skip(s[..lo.min(s.len())].chars().count()).take(200).collect() };
+                        let f = Failure::new(
+                            format!("step {} of a compile history in one process: the code for an accepted grammar differs from what a fresh process generates", step),
+                            cut(&g.expected),
+                            cut(&code),
+                        );
+                        return Err((f.clone(), json!({"property": "C16", "kind": "history", "signature": "route:history", "ops": texts, "failing_step": step,
+                            "message": f.msg, "expected": f.expected, "observed": f.observed})));
+                    }
+                }
+                (None, Err(e)) => {
+                    let f = Failure::new(format!("step {} of a compile history in one process: an accepted grammar is rejected", step), "code", e);
+                    return Err((f.clone(), json!({"property": "C16", "kind": "history", "signature": "route:history", "ops": texts, "failing_step": step,
+                        "message": f.msg, "expected": f.expected, "observed": f.observed})));
+                }
+            }
+        }
+        let key = format!("{:?}", ops);
+        let mut classes = vec!["history"];
+        if rejected_before_accept {
+            classes.push("accepted_after_rejected");
+        }
+        if ops.len() >= 4 {
+            classes.push("history_len>=4");
+        }
+        acc.ok(&key, rejected_before_accept, &classes, || json!({"history": ops.iter().map(|(i, b)| format!("g{}{}", i, if b.is_some() { " (rejected variant)" } else { "" })).collect::<Vec<_>>()}));
+        Ok(())
+    });
+    acc.write(out);
+}
+
+/// replay of a `history` record: expected code of every accepted text from a fresh process of this binary
+pub fn replay_history(rec: &serde_json::Value) -> Option<serde_json::Value> {
+    let ops = rec["ops"].as_array()?;
+    let exe = std::env::current_exe().ok()?;
+    let tmp = std::env::temp_dir().join(format!("c16hist_{}", std::process::id()));
+    std::fs::create_dir_all(&tmp).ok()?;
+    let mut result = None;
+    for (step, op) in ops.iter().enumerate() {
+        let text = op["text"].as_str()?;
+        let derives: Vec<String> = op["derives"].as_array().map(|a| a.iter().map(|x| x.as_str().unwrap_or("").to_string()).collect()).unwrap_or_default();
+        let settings = CodegenSettings { derives: derives.clone(), ..Default::default() };
+        let got = verif_core::util::catch(|| PGrammar::from_str(text).ok().and_then(|g| g.generate_code(&settings).ok()).map(|t| t.to_string())).ok().flatten();
+        if op["broken_variant"].as_bool().unwrap_or(false) {
+            continue;
+        }
+        let f = tmp.join("g.ebnf");
+        std::fs::write(&f, text).ok()?;
+        let ds = if derives.is_empty() { "-".to_string() } else { derives.join(",") };
+        let p = std::process::Command::new(&exe).arg("codegen").arg(&f).arg("--derives").arg(ds).output().ok()?;
+        let fresh = if p.status.success() { Some(String::from_utf8_lossy(&p.stdout).to_string()) } else { None };
+        if got != fresh {
+            result = Some(json!({"property": "C16", "kind": "history", "signature": "route:history", "failing_step": step,
+                "message": format!("step {} of the compile history: result differs from a fresh process", step)}));
+            break;
+        }
+    }
+    let _ = std::fs::remove_dir_all(&tmp);
+    result
 }
 
 /// corpus of grammar texts of all C12/C15 classes (for the C17 differential and as fuzz seeds)
